@@ -66,7 +66,12 @@ def sameItems (arr : List Cell) (d : Dim) : Bool :=
   | some dt =>
     match arr.mapM (convCell dt) with
     | none => false
-    | some a => setEq a (d.items.map Cell.ofItem)
+    | some a =>
+      -- a float that changes under the conversion (2000.7 → 2000) is not an item (D26 repair)
+      if (List.zip arr a).any (fun p => match p.1, p.2 with
+          | .num q true, .num q' _ => q != q'
+          | _, _ => false) then false
+      else setEq a (d.items.map Cell.ofItem)
   | none => setEq arr (d.items.map Cell.ofItem)
 
 structure DF where
@@ -78,7 +83,7 @@ deriving Repr, Inhabited
 inductive IndexKind where
   | range                    -- default RangeIndex: nothing to reset
   | named (k : Nat)          -- MultiIndex or named Index: `k` leading columns, already named
-  | unnamed                  -- one unnamed level in column 0
+  | unnamed (int64 : Bool)   -- one unnamed level in column 0, of dtype int64 or not
 deriving Repr, DecidableEq
 
 namespace DF
@@ -120,9 +125,9 @@ def resetIndex (kind : IndexKind) (df : DF) : DF :=
   match kind with
   | .range => df
   | .named _ => df
-  | .unnamed =>
+  | .unnamed int64 =>
     let idx := df.column 0
-    if idx.all isIntCell then
+    if int64 && idx.all isIntCell then
       -- int64 index: only reset when it looks like calendar years
       let ints := idx.map cellInt
       if !ints.isEmpty && ints.all (· ≥ 1700) && ints.all (· ≤ 2300) then
@@ -285,28 +290,38 @@ def itemPos? (d : Dim) (c : Cell) : Option Nat :=
 def rowKnown (dims : DimSet) (labels : List Cell) : Bool :=
   (List.zip dims labels).all fun p => (itemPos? p.1 p.2).isSome
 
+/-- positions of a row's labels in the dimensions' item lists -/
+def positions? (dims : DimSet) (labels : List Cell) : Option (List Nat) :=
+  (List.zip dims labels).mapM fun p => itemPos? p.1 p.2
+
+/-- rows with unknown items: an error, or (allow_extra_values) dropped -/
+def keepRows? (dims : DimSet) (rows : List (List Cell × Option Rat)) (allowExtra : Bool) :
+    Option (List (List Cell × Option Rat)) :=
+  if allowExtra then some (rows.filter fun r => rowKnown dims r.1)
+  else if rows.all (fun r => rowKnown dims r.1) then some rows else none
+
+/-- missing rows / NaN values: an error, or (allow_missing_values) zero -/
+def fillRows? (dims : DimSet) (rows : List (List Cell × Option Rat)) (allowMissing : Bool) :
+    Option (List (List Cell × Rat)) :=
+  if allowMissing then some (rows.map fun r => (r.1, r.2.getD 0))
+  else if rows.length != (shape dims).prod then none
+  else rows.mapM fun r => r.2.map fun v => (r.1, v)
+
+def placeRows (dims : DimSet) (rows : List (List Cell × Rat)) : List (List Nat × Rat) :=
+  rows.filterMap fun r => (positions? dims r.1).map fun idx => (idx, r.2)
+
+/-- `values = zeros; values[tuple(fill_indices)] = fill_values` -/
+def placedGet (placed : List (List Nat × Rat)) (idx : List Nat) : Rat :=
+  match placed.reverse.find? (·.1 == idx) with
+  | some r => r.2
+  | none => 0
+
 /-- `_check_data_complete`: the decision logic and the placement -/
 def complete? (dims : DimSet) (t : LongTable) (allowMissing allowExtra : Bool) : Option (ND Rat) :=
   if hasDuplicates (t.rows.map (·.1)) then none else
-  let rowsE? : Option (List (List Cell × Option Rat)) :=
-    if allowExtra then some (t.rows.filter fun r => rowKnown dims r.1)
-    else if t.rows.all (fun r => rowKnown dims r.1) then some t.rows else none
-  match rowsE? with
-  | none => none
-  | some rows =>
-    let rowsM? : Option (List (List Cell × Rat)) :=
-      if allowMissing then some (rows.map fun r => (r.1, r.2.getD 0))
-      else if rows.length != (shape dims).prod then none
-      else rows.mapM fun r => r.2.map fun v => (r.1, v)
-    match rowsM? with
-    | none => none
-    | some rows =>
-      let placed : List (List Nat × Rat) := rows.filterMap fun r =>
-        ((List.zip dims r.1).mapM fun p => itemPos? p.1 p.2).map fun idx => (idx, r.2)
-      some { shape := shape dims,
-             get := fun idx => match placed.reverse.find? (·.1 == idx) with
-               | some r => r.2
-               | none => 0 }
+  (keepRows? dims t.rows allowExtra).bind fun rows =>
+    (fillRows? dims rows allowMissing).map fun rows =>
+      ({ shape := shape dims, get := placedGet (placeRows dims rows) } : ND Rat)
 
 /-- `DataFrameToFlodymDataConverter(df, array, …).target_values` -/
 def convert? (dims : DimSet) (kind : IndexKind) (df : DF) (allowMissing allowExtra : Bool) : Option (ND Rat) := do
@@ -392,7 +407,10 @@ def toDf? (x : FArr Rat) (index : Bool) (dimToColumns : Option String) (sparse :
         match long.rows.find? (fun r => labelsEq (keyOf r) rk && labelEq (r.getD pos .nan) ck) with
         | some r => r.getD x.dims.length .nan
         | none => .nan
-      some ({ cols := (others.map fun j => Cell.str ((names x.dims).getD j "")) ++ colKeys,
+      let otherNames := others.map fun j => Cell.str ((names x.dims).getD j "")
+      -- `reset_index` cannot insert a level whose name is already a column label
+      if !index && otherNames.any (containsPy colKeys) then none else
+      some ({ cols := otherNames ++ colKeys,
               rows := rowKeys.map fun rk => rk ++ colKeys.map (cell rk) },
             if index then .named others.length else .range)
 
